@@ -3,17 +3,31 @@
 //         ltsd <n> <ne> { <src> <label> <dst> }*                       (no partition given)
 // output: for every output size m = 0..n (n > 12: m in {0,1,2,n/2,n-1,n}) one group   O <m> S <size()> <npairs> { q r }*
 //         (ltsd: additionally   F S <size()> <npairs> {q r}*   for computeSimulation() without arguments)
-// A fresh ExplicitLTS is built for every call (edges inserted in the order of the case line).
+// A fresh ExplicitLTS is built for every output size (edges inserted in the order of the case line): in one go for even sizes, in two phases
+// (half of the edges, init(), the other half, init()) for odd sizes and for F; the object asked for the full size has answered size 0 before.
 #include "common.hh"
 #include <vata/explicit_lts.hh>
 using namespace vd;
 
 struct Edge { U s, a, d; };
 
-static VATA::ExplicitLTS mkLTS(U n, const std::vector<Edge>& es) {
+// phases = 1: all edges, then init().  phases = 2: the first half of the edges, init(), the second half, init() again (an LTS that is extended
+// after it has been initialised once must behave like one built in one go)
+static VATA::ExplicitLTS mkLTS(U n, const std::vector<Edge>& es, int phases = 1) {
 	VATA::ExplicitLTS lts(n);
-	for (const Edge& e : es) lts.addTransition(e.s, e.a, e.d);
+	size_t half = phases == 2 ? es.size() / 2 : es.size();
+	if (phases == 2) {
+		// only when the second phase brings no new label: init() sizes its per-state label sets by the number of labels known at the FIRST call
+		// (a label that appears later is outside what init() supports on the unchanged sources)
+		std::set<U> first; for (size_t i = 0; i < half; ++i) first.insert(es[i].a);
+		for (size_t i = half; i < es.size(); ++i) if (!first.count(es[i].a)) { half = es.size(); phases = 1; break; }
+	}
+	for (size_t i = 0; i < half; ++i) lts.addTransition(es[i].s, es[i].a, es[i].d);
 	lts.init();
+	if (phases == 2) {
+		for (size_t i = half; i < es.size(); ++i) lts.addTransition(es[i].s, es[i].a, es[i].d);
+		lts.init();
+	}
 	return lts;
 }
 
@@ -41,18 +55,20 @@ int main() {
 				for (U i = 0; i < np; ++i) { U x = t.num(); U y = t.num(); rel.set(x, y, true); }
 				for (U m = 0; m <= n; ++m) {
 					if (n > 12 && !(m <= 2 || m == n / 2 || m + 1 >= n)) continue;      // larger systems: a sample of the output sizes
-					VATA::ExplicitLTS lts = mkLTS(n, es);
+					VATA::ExplicitLTS lts = mkLTS(n, es, (m % 2) ? 2 : 1);
+					if (m == n && n > 0) { VATA::Util::BinaryRelation r0 = lts.computeSimulation(part, rel, 0); (void)r0; }     // the object has been used before
 					VATA::Util::BinaryRelation r = lts.computeSimulation(part, rel, m);
 					os << (m ? " " : "") << "O " << m; showRel(os, r);
 				}
 			} else {
 				for (U m = 0; m <= n; ++m) {
 					if (n > 12 && !(m <= 2 || m == n / 2 || m + 1 >= n)) continue;      // larger systems: a sample of the output sizes
-					VATA::ExplicitLTS lts = mkLTS(n, es);
+					VATA::ExplicitLTS lts = mkLTS(n, es, (m % 2) ? 2 : 1);
+					if (m == n && n > 0) { VATA::Util::BinaryRelation r0 = lts.computeSimulation(0); (void)r0; }
 					VATA::Util::BinaryRelation r = lts.computeSimulation(m);
 					os << (m ? " " : "") << "O " << m; showRel(os, r);
 				}
-				VATA::ExplicitLTS lts = mkLTS(n, es);
+				VATA::ExplicitLTS lts = mkLTS(n, es, 2);
 				VATA::Util::BinaryRelation r = lts.computeSimulation();
 				os << " F"; showRel(os, r);
 			}
